@@ -1112,8 +1112,8 @@ class C02(Check):
     assumptions = ["Py.* operator semantics (lean/Utv/Py/Basic.lean) and Prims (repr/str of floats and Decimals, re.fullmatch, float round) "
                    "are CPython's: audited on every run by the 'cmp' stream and by running every generated validator against the real one",
                    "float arithmetic (%, //, round on floats) is outside the Lean model: covered by the correspondence/oracle only"]
-    budget = {"quick": 3000, "thorough": 60000}
-    search_budget = {"quick": 6000, "thorough": 60000}
+    budget = {"quick": 6000, "thorough": 150000}
+    search_budget = {"quick": 8000, "thorough": 80000}
 
     decl_share = 0.3
 
